@@ -307,8 +307,9 @@ func C01(r *chk.Run) {
 	r.Assume("reference model = the call log; nil and empty byte slices / maps are equal (the format cannot distinguish them)")
 	r.Assume("custom-codec configurations: the Reader API cannot be given a decompressor, so only the lexer path must reproduce the data; the iterator may fail but must not return wrong data")
 	r.Rule("each written file is read back through 4 lexer variants (CRC validation x caller buffer reuse) and the non-indexed iterator through Next(nil), Next(buf), NextInto(nil), NextInto(reused); values returned by allocating calls are retained and re-compared at the end (stability clause)")
+	// the cheap, distinct phase first, so that the large writer space cannot starve it on a loaded machine
+	r.Phase("record-length-sweeps", c01SweepBody(r.Thorough()), chk.PhaseOpts{SplitLen: 3, Share: 0.3})
 	writerSpace(r, so, c01Oracle)
-	r.Phase("record-length-sweeps", c01SweepBody(r.Thorough()), chk.PhaseOpts{SplitLen: 3})
 }
 
 // strN returns a string of n bytes.
